@@ -13,9 +13,12 @@
                                   from emit() - with the guard of emit() as observed on the current source]
    case [104]                  -> facts about the regenerated tables, for the evidence: [emit() guarded?; emit's constants dominated
                                  by parse's?; [indices of the simple statements emit() needs more frames for than parse()]]
+   case [105; [script ...]]    -> a process transpiling scripts that define functions named like (or unlike) the foldable builtins and
+                                 call them on literals (Lang/NameSession.v, the mode the inventory of the current source allows;
+                                 stmt = [0; name] def | [1; name; lit] call): per script, per call [folded?; lit]
    (a unit of its own - Wire/C11W.v stays the evaluator wire shared with C03 - because the extraction flattens names) *)
 From Coq Require Import ZArith List Bool.
-From RV Require Import Base.Wire Lang.Regex Gen.Regexes Lang.FoldSession Lang.VariantCost Lang.NestDepth Gen.NestDepth.
+From RV Require Import Base.Wire Lang.Regex Gen.Regexes Lang.FoldSession Lang.VariantCost Lang.NestDepth Gen.NestDepth Gen.SafeCasts Lang.NameSession.
 Import ListNotations.
 Open Scope Z_scope.
 
@@ -80,8 +83,23 @@ Fixpoint dec_stmt (v : wv) : option stmt :=
   | _ => None
   end.
 
+Definition dec_nstmt (v : wv) : option nstmt :=
+  match v with
+  | WL [WI 0; x] => match un_text x with Some n => Some (NBind n) | None => None end
+  | WL [WI 1; x; WI z] => match un_text x with Some n => Some (NCall n z) | None => None end
+  | _ => None
+  end.
+Definition dec_nscript (v : wv) : option (list nstmt) := match v with WL l => dec_all dec_nstmt l | _ => None end.
+Definition enc_nout (o : nout) : wv :=
+  match o with NFolded _ z => WL [WI 1; WI z] | NRuntime _ z => WL [WI 0; WI z] end.
+
 Definition run (v : wv) : wv :=
   match v with
+  | WL [WI 105; WL ps] =>
+      match dec_all dec_nscript ps with
+      | Some scripts => WL (map (fun o => WL (map enc_nout o)) (nsession current_mode safe_name_references scripts))
+      | None => wbad
+      end
   | WL [WI 103; WI room; WL ts] =>
       match dec_all dec_stmt ts with
       | Some p => WL [WI (need_prog parse_stage p); WI (need_prog emit_stage p); WI (pipeline emit_guarded parse_stage emit_stage room p)]
